@@ -142,7 +142,7 @@ theorem encChunk_length (fl : Flags) (c : AChunk) :
   simp only [encChunk, encChunkMeta, List.length_append, natBits_length] at h1 ⊢
   omega
 
-theorem step_chunk (L : Matcher) (hL : LazyOf L) (limit : Nat) (h : f.WF gb d) (σ : St)
+theorem step_chunk (L : Matcher) (hL : WeakLazyOf L) (limit : Nat) (h : f.WF gb d) (σ : St)
     (t : Bits) (k : Nat) (hinv : Inv gb d f (.chunk k) σ t) (hal : Al σ) :
     StepOK L gb d f limit (.chunk k) σ t := by
   obtain ⟨hk, hfl, hbody, hterm, hpos, hrest⟩ := hinv
@@ -227,7 +227,7 @@ theorem step_chunk (L : Matcher) (hL : LazyOf L) (limit : Nat) (h : f.WF gb d) (
       rw [hdec] at h1; cases h1
 
 
-theorem step_body (L : Matcher) (hL : LazyOf L) (limit : Nat) (hlim : 1 ≤ limit) (h : f.WF gb d)
+theorem step_body (L : Matcher) (hL : WeakLazyOf L) (limit : Nat) (hlim : 1 ≤ limit) (h : f.WF gb d)
     (σ : St) (t : Bits) (k j : Nat) (hinv : Inv gb d f (.body k j) σ t) (hal : Al σ) :
     StepOK L gb d f limit (.body k j) σ t := by
   obtain ⟨c, b, q, hk', hfl, hbody, hterm, hbi⟩ := hinv
@@ -302,7 +302,7 @@ theorem step_body (L : Matcher) (hL : LazyOf L) (limit : Nat) (hlim : 1 ≤ limi
         rw [hkm, ← hnums]
         rfl
 
-theorem step (L : Matcher) (hL : LazyOf L) (limit : Nat) (hlim : 1 ≤ limit) (h : f.WF gb d)
+theorem step (L : Matcher) (hL : WeakLazyOf L) (limit : Nat) (hlim : 1 ≤ limit) (h : f.WF gb d)
     (σ : St) (t : Bits) (p : Pos) (hp : p ≠ .done) (hinv : Inv gb d f p σ t) (hal : Al σ) :
     StepOK L gb d f limit p σ t := by
   cases p with
